@@ -7,13 +7,13 @@ import pathlib
 V = pathlib.Path(__file__).resolve().parent.parent
 TABLE = {
     "C01": ("exploration", "reference-model monitor: independent quadrature of the recorded kernels + in-span PDF contraction", "§2 C01",
-            "Every operator entry of the runs explored is recomputed by an independent quadrature from the kernels the run actually used (probe on Combiner.collect_elems) and, at the public boundary, through contraction with in-span PDFs integrated analytically; held = on all sampled cells, kinematic classes and grids.",
+            "A probe on Runner.replace_nans_with_0 counts entries handed over as 0 after a non-finite convolution; every operator entry of the runs explored is recomputed by an independent quadrature from the kernels the run actually used (probe on Combiner.collect_elems) and, at the public boundary, through contraction with in-span PDFs integrated analytically; held = on all sampled cells, kinematic classes and grids.",
             "eko basis functions and scipy.quad trusted; coefficient functions themselves are taken from the code (their physics is C02-C04, C08)"),
-    "C02": ("exploration", "reference-model monitor (PDG electroweak/CKM weights) on PTO=0 operators", "§2 C02",
-            "Every parton row of the LO tensor of thousands of seeded runs over the EW box, CKM, schemes, projectiles and x classes is compared with an independent PDG-formula model; a single wrong sign/charge/propagator/CKM mask is a 1e-1..1 relative effect against a 1e-9 tolerance.",
+    "C02": ("exploration", "reference-model monitor (PDG electroweak/CKM weights) on the LO order of PTO=0..3 runs", "§2 C02",
+            "Every parton row of the LO tensor of thousands of seeded runs over the EW box, CKM (string and list forms), schemes, projectiles, x classes and requested orders is compared with an independent PDG-formula model; a single wrong sign/charge/propagator/CKM mask is a 1e-1..1 relative effect against a 1e-9 tolerance.",
             "eko basis evaluation trusted; massive-quark (intrinsic) rows and undocumented heavylight heavynesses not judged"),
     "C03": ("exploration", "invariant monitor on every RSL the real code constructs (probe on RSL.__init__): loc(x)-loc(x0) = -int sing, finiteness, x-independent Mellin moments", "§2 C03",
-            "All distribution objects constructed while every partonic-channel class and every splitting label is driven (nf 3..6, mass ratios) are checked on an x grid by numerical integration of their singular part.",
+            "All distribution objects constructed while every partonic-channel class and every splitting label is driven (nf 3..6, every mass ratio once through Q2 and once through the mass) are checked on an x grid by numerical integration of their singular part.",
             "scipy.quad trusted; parametrisation accuracy 1e-4 relative"),
     "C04": ("exploration", "reference-model monitor: sum rules (Adler, GLS/Bjorken) and textbook NLO closed forms against the RSLs returned by the real classes", "§2 C04",
             "Moments and pointwise NLO values of the real light coefficient-function objects are compared with exact constants / closed forms written independently.",
@@ -31,7 +31,7 @@ TABLE = {
             "For single-massive-quark configurations the normalised difference massive-asymptotic must fall at least like ln^2(xi)/xi between xi=1e2 and 1e6, per order, entrywise and contracted with PDFs.",
             "bounded restatement: no finite run decides a limit; quadrature noise limits xi<=1e6"),
     "C09": ("exploration", "invariant monitor at the output (exact zeros at/below W2=4m2, exact-rational predicate) + integrand probe + convolution-point probe", "§2 C09",
-            "Points on both sides of and exactly at the hadronic threshold (dyadic constructions, +-1 ulp) must give exactly zero pair-production rows; the O(a_s^2) pair radiation off light quarks (in <kind>_light) must not notice a heavier quark at/below threshold; recorded heavy RSLs must vanish beyond the partonic threshold; CC heavy kernels must be convolved at x(1+m2/Q2).",
+            "Points on both sides of and exactly at the hadronic threshold (dyadic constructions, +-1 ulp) must give exactly zero pair-production rows; the O(a_s^2) pair radiation off light quarks (in <kind>_light) must not notice a heavier quark at/below threshold; recorded heavy RSLs must vanish beyond the partonic threshold; CC heavy kernels must be convolved at x(1+m2/Q2) and, at twin points of equal Q2, be the same functions of their argument; in FFNS with several massive quarks every closed quark must stay invisible (mass variation per level) and count like an absent one (same card in FONLL-FFNS).",
             "exactly representable threshold constructions"),
     "C10": ("exploration", "reference-model monitor: published TMC formulas evaluated on observed uncorrected operators of the same configuration", "§2 C10",
             "TMC=1,2,3 operators are compared with Schienbein et al./Accardi-Melnitchouk formulas assembled from TMC=0 operators observed at xi and at the grid nodes, with independently integrated kernel weights; continuity in M and rejection outside the grid.",
@@ -46,10 +46,10 @@ TABLE = {
             "Pairs/quadruples of runs are compared entrywise or bit for bit on seeded cells over kinds, schemes, orders, EW parameters and arbitrary CKM.",
             "MZ=MW=1e12 realises decoupling"),
     "C14": ("exploration", "history monitor: many request histories against the same configuration, bit-for-bit, with cache-state probes and injected aborts", "§2 C14",
-            "Each base request is replayed inside permuted/extended/reduced/repeated/aborted/scribbled histories and after runners on other grids; probes count cache hits, misses and drops so that histories that never touched a cache do not count; every base request is also recomputed in a second set of processes (other order and partition, twin grid served first) and compared bit for bit.",
+            "Each base request is replayed inside permuted/extended/reduced/repeated/aborted/scribbled histories and after runners on other grids; probes count cache hits, misses and drops so that histories that never touched a cache do not count; every base request is also recomputed in a second set of processes (other order and partition; twin grid, same nodes in the other interpolation mode/degree and another NfFF served first) and compared bit for bit.",
             "single-threaded program: histories are sequences, not interleavings"),
     "C15": ("exploration", "round-trip monitor over dump/load chains of real runner outputs, field-by-field and through predictions", "§2 C15",
-            "tar and YAML chains (three cycles, crossed) on outputs with SF/XS mixes, SV keys, TMC, empty and None observables; everything compared with array_equal.",
+            "tar and YAML chains (three cycles, crossed) on outputs with SF/XS mixes, SV keys, TMC, empty and None observables; everything compared with array_equal; a second output of the same shape written over the same tar/YAML path must be what is read back.",
             "cards restricted to plain YAML types"),
     "C16": ("exploration", "outcome classifier over the full configuration lattice (finite / explicit rejection / internal failure), incl. dead-worker detection", "§2 C16",
             "The kind x heavyness x process x scheme x PTO lattice is enumerated (thorough: exhaustively, other factors by covering design) and every run classified from its result or traceback; out-of-domain kinematics must be rejected explicitly.",
@@ -57,8 +57,8 @@ TABLE = {
     "C17": ("exploration", "reference-model monitor: independent contraction, recording PDF/coupling callables, own RGE integration of the captured alpha_s", "§2 C17",
             "Predictions of real outputs (plus fabricated extra order keys) are compared with an explicit-loop contraction; argument recording proves the scales; the alpha_s callable built from the theory card is captured and checked against the exact RGE with the scheme's nf.",
             "eko threshold matching of alpha_s only checked away from thresholds; ModEv=EXA"),
-    "C18": ("translation_validation", "differential execution compiled vs interpreted (per kernel on recorded argument vectors, end-to-end in two processes) + NUMBA_BOUNDSCHECK sanitizer", "§2 C18",
-            "Every numba dispatcher found in yadism.* is executed compiled and via py_func on the argument vectors the calling classes actually pass; full runs are repeated under NUMBA_BOUNDSCHECK=1 and with NUMBA_DISABLE_JIT=1.",
+    "C18": ("translation_validation", "differential execution compiled vs interpreted (per kernel on recorded argument vectors, end-to-end in two processes) + NUMBA_BOUNDSCHECK sanitizer + valgrind memcheck over whole JIT-mode runs (thorough tier)", "§2 C18",
+            "Every numba dispatcher found in yadism.* is executed compiled and via py_func on the argument vectors the calling classes actually pass; full runs - random cards plus one small card per (scheme, process, kind, heavyness) cell - are repeated under NUMBA_BOUNDSCHECK=1 and with NUMBA_DISABLE_JIT=1; in the thorough tier sixteen small cards run under valgrind memcheck, a report counting only when the faulting instruction is in JIT-emitted code.",
             "numba's interpreter fallback (py_func) is the reference semantics"),
     "C19": ("exploration", "relation-between-runs monitor along grid-refinement families against a grid-independent truth (analytic PDF, independent quadrature)", "§2 C19",
             "For smooth PDFs the prediction error on each grid is bounded by K times the measured interpolation error of that grid; refinement must not make it worse; SV keys, TMC predictions and a twin grid (same size/end points, other nodes) must agree within the interpolation accuracy; node continuity is checked at x_k(1+-1e-9).",
